@@ -49,6 +49,12 @@ form('plus-update-operand', { ops: ['+'] }, F => { const a = F.loc('w.i' + F.id(
 form('plus-new-operand', { ops: ['+'] }, F => `new w.C${F.id()}(${F.s()}) + ${F.s()}`)
 form('plus-fnexpr-operand', { ops: ['+'] }, F => `(function () { return ${F.s()} })() + ${F.loc()}`)
 form('plus-arrow-operand', { ops: ['+'] }, F => `(() => ${F.s()} + ${F.f()})() + ${F.loc()}`)
+form('plus-seq-operand-instrumented-first', { ops: ['+'] }, F => { const u = F.loc(); return `${F.f()} + (${u} = ${F.loc()} + ${F.f()}, ${u})` })
+form('plus-seq-operand-both-instrumented', { ops: ['+', 'tpl'] }, F => `${F.f()} + (${F.s()} + ${F.f()}, \`\${${F.f()}}\`)`)
+form('addassign-seq-operand-instrumented-first', { ops: ['+=', '+'] }, F => { const u = F.loc(); return `${F.loc()} += (${u} = ${F.s()} + ${F.f()}, ${u})` })
+form('plus-fnexpr-default-param-operand', { ops: ['+'] }, F => `${F.f()} + w.cb${F.id()}(function (it, sep = ${F.s()} + ${F.f()}) { return sep + it })`)
+form('plus-method-default-param-operand', { ops: ['+'] }, F => `${F.f()} + ({ m(sep = \`\${${F.s()}}|\${${F.f()}}\`) { return sep } }).m()`)
+form('call-arg-after-fnexpr-default-param', { ops: ['concat', '+'] }, F => `w.id${F.id()}(${F.s()} + ${F.f()}, function (q = ${F.loc()}.trim()) { return q })`)
 form('minus-only', { ops: [], instr: false }, F => `w.i${F.id()} - w.i${F.id()}`)
 // +=
 form('addassign-ident-lit', { ops: ['+='] }, F => `${F.loc()} += ${F.lit()}`)
@@ -101,6 +107,8 @@ form('call-null-recv', { ops: ['trim'] }, F => `w.n${F.id()}.trim()`)
 form('call-undefined-method', { ops: ['trim'] }, F => `w.i${F.id()}.trim(${F.f()})`)
 form('call-unlisted', { ops: [], instr: false }, F => `${F.loc()}.charAt(1)`)
 form('call-nested-arg-ops', { ops: ['concat', 'trim', '+'] }, F => `${F.loc()}.concat(${F.loc()}.trim(), ${F.s()} + ${F.f()})`)
+form('call-arg-seq-instrumented-first', { ops: ['concat', '+'] }, F => { const u = F.loc(); return `${F.loc()}.concat((${u} = ${F.loc()} + ${F.f()}, ${u}))` })
+form('tpl-seq-second-subst', { ops: ['tpl', '+'] }, F => { const u = F.loc(); return `\`\${${F.f()}}-\${(${u} = ${F.s()} + ${F.f()}, ${u})}\`` })
 form('call-arg-alias', { ops: ['concat'] }, F => { const a = F.loc(); return `${a}.concat(${a}, (${a} = ${F.s()}, ${F.f()}), ${a})` })
 form('call-new-member-recv', { ops: ['trim'] }, F => `new w.C${F.id()}().s1.trim()`)
 form('call-super-like-member', { ops: ['trim'] }, F => `w.o${F.id()}.o2.s${F.id()}.trim()`)
@@ -229,6 +237,8 @@ place('iife', {}, E => `w.out((function () { return ${E} })());`)
 place('closure-in-loop', { thisOk: true }, E => `const fs = []; for (let i = 0; i < 2; i++) fs.push(() => ${E}); for (const f of fs) w.out(f());`)
 place('generator-body', {}, E => `function* g() { yield ${E}; yield w.s1 } for (const v of g()) w.out(v);`)
 place('async-arrow-body', { thisOk: true, asyncMain: true }, E => `const af = async () => ${E}; return af().then(v => { w.out(v); return v });`)
+place('async-arrow-await-expr-body', { thisOk: true, asyncMain: true }, E => `const af = async (x) => (await w.id1(x)) + (${E}); return af(w.s1);`)
+place('async-arrow-await-in-call-arg', { thisOk: true, asyncMain: true }, E => `return Promise.all([w.s1, w.s2].map(async (u) => await w.id1(u) + (${E})));`)
 place('async-fn-after-await', { asyncMain: true }, E => `async function af() { await w.s1; return ${E} } return af();`)
 place('callback-reentrant', { thisOk: true }, E => `w.out(w.cb1((x) => ${E}));`)
 place('object-method-in-arg', {}, E => `w.out(w.id1({ m() { return ${E} } }).m());`)
